@@ -305,3 +305,84 @@ func g16Eq(c *Ctx) {
 		}
 	}
 }
+
+// g16RewriteGuard — newPackage prints a user file back from its syntax tree. A file with syntax errors is only partly
+// represented by its tree (the loader tolerates errors), so printing it would silently drop the user's code. Every
+// opening of a user file for writing must therefore come after a successful complete parse of that very path:
+// `if _, err := parser.ParseFile(fset, <path>, nil, …); err != nil { return … }` as an earlier statement of an enclosing
+// block.
+func g16RewriteGuard(r *Repo, rep *Report) {
+	fi := r.lookup("derive.newPackage")
+	if fi == nil {
+		rep.fail(Finding{Rule: "G16", Key: "G16|rewrite-guard|missing", Kind: "undecided", Msg: "newPackage not found"})
+		return
+	}
+	info := fi.Pkg.TypesInfo
+	par := parents(fi.Decl)
+	n := 0
+	ast.Inspect(fi.Decl.Body, func(m ast.Node) bool {
+		c, ok := m.(*ast.CallExpr)
+		if !ok {
+			return true
+		}
+		fn, ok := callee(info, c).(*types.Func)
+		if !ok || fn.Pkg() == nil || fn.Pkg().Path() != "os" || (fn.Name() != "OpenFile" && fn.Name() != "Create" && fn.Name() != "WriteFile") || len(c.Args) == 0 {
+			return true
+		}
+		n++
+		path := exprStr(c.Args[0])
+		guarded := false
+		for x := ast.Node(c); x != nil && !guarded; x = par[x] {
+			blk, ok := par[x].(*ast.BlockStmt)
+			if !ok {
+				continue
+			}
+			for _, st := range blk.List {
+				if st == x {
+					break
+				}
+				is, ok := st.(*ast.IfStmt)
+				if !ok || is.Init == nil || is.Else != nil || len(is.Body.List) == 0 {
+					continue
+				}
+				as, ok := is.Init.(*ast.AssignStmt)
+				if !ok || len(as.Rhs) != 1 {
+					continue
+				}
+				pc, ok := as.Rhs[0].(*ast.CallExpr)
+				if !ok || !isPkgFunc(callee(info, pc), "go/parser", "ParseFile") || len(pc.Args) < 3 || exprStr(pc.Args[1]) != path {
+					continue
+				}
+				// the source argument must be nil (read the file itself) and the error branch must leave
+				if !isNilIdent(info, pc.Args[2]) {
+					continue
+				}
+				errObj := types.Object(nil)
+				if id, ok := as.Lhs[len(as.Lhs)-1].(*ast.Ident); ok {
+					errObj = info.Defs[id]
+				}
+				if errObj == nil {
+					continue
+				}
+				if op, ok := nilCompare(info, is.Cond, errObj); !ok || op != token.NEQ {
+					continue
+				}
+				if _, isRet := is.Body.List[len(is.Body.List)-1].(*ast.ReturnStmt); isRet {
+					guarded = true
+				}
+			}
+		}
+		if guarded {
+			rep.pass("G16")
+			rep.sample(map[string]string{"rule": "G16 rewrite only after a complete parse", "site": r.pos(c.Pos()), "path": path})
+		} else {
+			rep.fail(Finding{Rule: "G16", Key: "G16|rewrite-guard|" + fn.Name(), Where: []string{r.pos(c.Pos())},
+				Msg: fmt.Sprintf("newPackage opens %s for writing without first checking that the file parses completely: with -autoname/-dedup a user file that has a syntax error is printed back from the partial syntax tree the parser recovered, and the rest of the user's code is lost", path)})
+		}
+		return true
+	})
+	rep.analysed("user_file_write_sites", n)
+	if n == 0 {
+		rep.fail(Finding{Rule: "G16", Key: "G16|rewrite-guard|no-site", Kind: "undecided", Where: []string{r.pos(fi.Decl.Pos())}, Msg: "no user-file write found in newPackage (the rename rewrite was confirmed by hand)"})
+	}
+}
